@@ -192,6 +192,57 @@ def lp_strip(rng):
     return c, A, b
 
 
+def lp_artdeg(rng):
+    """degenerate phase-1 vertices: several >=-rows (negative rhs) tight at one integer vertex v with linearly
+    dependent normals – pairs whose sum is capped by an opposite row (so both are forced tight), equalities written
+    as two opposite rows plus a redundant combination; integer data, so ratio ties are exact and artificials stay
+    basic at level zero after phase 1"""
+    n = rng.randint(3, 5)
+    while True:
+        v = [rng.choice([0, 1, 2, 3, 3]) for _ in range(n)]
+        if sum(1 for t in v if t > 0) >= 2:
+            break
+
+    def normal():
+        for _ in range(100):
+            a = [rng.randint(-2, 3) if rng.random() < 0.8 else 0 for _ in range(n)]
+            if sum(x * y for x, y in zip(a, v)) > 0:
+                return a
+        return [1 if t > 0 else 0 for t in v]
+
+    def dot(a):
+        return sum(x * y for x, y in zip(a, v))
+
+    A, b = [], []
+
+    def ge(a, slack=0):       # a.x >= a.v - slack   written as  -a.x <= -(a.v - slack)
+        A.append([-x for x in a]); b.append(-(dot(a) - slack))
+
+    def le(a, slack=0):
+        A.append(list(a)); b.append(dot(a) + slack)
+
+    for _ in range(rng.randint(1, 2)):
+        kind = rng.random()
+        a1, a2 = normal(), normal()
+        if kind < 0.45:        # two >= rows whose sum is capped by the opposite row: all three tight
+            k = rng.choice([1, 1, 2])
+            ge(a1); ge(a2); le([k * (x + y) for x, y in zip(a1, a2)])
+        elif kind < 0.8:       # equality as two opposite rows + a redundant combination with another tight row
+            ge(a1); le(a1); ge(a2)
+            ge([x + y for x, y in zip(a1, a2)])
+        else:                  # three dependent >= rows
+            ge(a1); ge(a2); ge([x + 2 * y for x, y in zip(a1, a2)])
+    if rng.random() < 0.6:
+        j = rng.randrange(n)
+        le([2 if t == j else 0 for t in range(n)], slack=rng.choice([0, 0, 2]))
+    if rng.random() < 0.4:
+        le([1] * n, slack=rng.randint(0, 3))
+    idx = list(range(len(A))); rng.shuffle(idx)
+    A = [A[i] for i in idx]; b = [b[i] for i in idx]
+    c = [rng.randint(-3, 3) for _ in range(n)]
+    return c, A, b
+
+
 FAMILIES = [("random", lp_random), ("bounded", lp_bounded), ("degenerate", lp_degenerate),
             ("phase1", lp_phase1), ("infeasible", lp_infeasible), ("unbounded", lp_unbounded)]
 
